@@ -54,10 +54,14 @@ func runC14(t *rapid.T) {
 		// size thresholds (tens of kilobytes of output and more)
 		fs = gen.DrawBigFrame(t, 2500, 3500)
 		core.Probe("big-frame")
+		if rapid.IntRange(0, 5).Draw(t, "giant") == 0 {
+			fs = gen.DrawBigFrame(t, 16385, 20003) // beyond 2^14 rows, about a megabyte of JSON
+			core.Probe("giant-frame")
+		}
 	} else {
 		fs = gen.DrawFrame(t, b)
 	}
-	scr := gen.DrawScramble(t, fs)
+	scr := gen.DrawScrambleOrEmpty(t, fs)
 	tr := &c14Trace{Frame: fs, Scramble: scr}
 	tr.PipeCap = pipeCaps[rapid.IntRange(0, len(pipeCaps)-1).Draw(t, "pipecap")]
 	if big && tr.PipeCap < 4096 {
@@ -76,7 +80,7 @@ func runC14(t *rapid.T) {
 	src := obs.Of(qf)
 
 	// can ReadJSON be expected to reproduce the frame?
-	readable := src.Len > 0
+	readable := src.Len > 0 && len(src.Names) > 0 // records without members cannot carry a row count
 	seen := map[string]bool{}
 	for i, n := range src.Names {
 		d := denote(n)
